@@ -48,6 +48,8 @@ var c08Archs = []c08Arch{
 	{Name: "two-lines", Text: "union\nselect\n"},
 	{Name: "one-line-with-a-blank", Text: "union select\n"},
 	{Name: "chain0-spelling", Text: "  zero\noffset\n", Spell: "-chain0"},
+	// a file with CR LF line ends (whatever format does with them, it does it to this file only)
+	{Name: "crlf-lines", Text: "  one\r\ntwo\r\n"},
 	// a canonical file without the i flag that has an upper-case class (fine on its own; the lint belongs to files with the flag)
 	{Name: "upper-case-class-canonical", Text: "##! Please refer to the documentation at\n##! https://coreruleset.org/docs/development/regex_assembly/.\n\n[A-Z]+bart\n"},
 }
@@ -67,6 +69,8 @@ type c08Tree struct {
 
 func c08Build(sel []int) c08Tree {
 	t := core.Tree{"regex-assembly/toolchain.yaml": c01Yaml, "regex-assembly/include/helper2.ra": "##! Please refer to the documentation at\n##! https://coreruleset.org/docs/development/regex_assembly/.\n\n##!> define d leak\nxx\n", "regex-assembly/exclude/helperx.ra": "##! Please refer to the documentation at\n##! https://coreruleset.org/docs/development/regex_assembly/.\n\nxx\n"}
+	// the helper's name also exists in the exclude directory, with other content (an include means the include directory)
+	t["regex-assembly/exclude/helper2.ra"] = "##! Please refer to the documentation at\n##! https://coreruleset.org/docs/development/regex_assembly/.\n\nfromexcludedir\n"
 	var rules []ruleSpec
 	var files []c08File
 	for i, a := range sel {
